@@ -7,6 +7,7 @@ package main
 import (
 	"errors"
 	"fmt"
+	"strings"
 
 	"github.com/cockroachdb/redact"
 )
@@ -195,5 +196,103 @@ func c17nestedCauses(c *Ctx, hooked bool) {
 			return
 		}
 		w.Nontrivial(hashStrs("nestedcause", shape, itoa(id), sprint(hooked)))
+	})
+}
+
+// c17numericErrors: errors whose kind is numeric (the syscall.Errno idiom) or string, under the verbs that fmt would
+// apply to the number itself: with a hook installed the hook renders them under every verb, at top level and inside
+// containers alike; without a hook fmt's rendering applies (C04).
+type cErrno uintptr
+
+func (e cErrno) Error() string { return "errno " + itoa(int(e)) }
+
+type cErrFloat float64
+
+func (e cErrFloat) Error() string { return "ferr" }
+
+type cErrText string
+
+func (e cErrText) Error() string { return "text:" + string(e) }
+
+func c17numericErrors(c *Ctx, hooked bool) {
+	errs := []error{cErrno(2), cErrFloat(2.5), cErrText("t" + startM)}
+	dirs := []string{"%v", "%d", "%05d", "%+d", "%-8.3o", "%#b", "%6.2f", "%U", "%x", "%q", "%s", "%c", "%e", "%g"}
+	shapes := []string{"top", "slice", "errs", "map-value", "map-key", "field", "ptr", "array", "safe", "unsafe"}
+	type job struct{ e, d, s int }
+	var jobs []job
+	for e := range errs {
+		for d := range dirs {
+			for s := range shapes {
+				jobs = append(jobs, job{e, d, s})
+			}
+		}
+	}
+	c.ParallelFor(int64(len(jobs)), func(w *Worker, i int64) {
+		e, d, shape := errs[jobs[i].e], dirs[jobs[i].d], shapes[jobs[i].s]
+		verb := d[len(d)-1:]
+		cs := map[string]string{"error": sprintType(e), "directive": d, "shape": shape, "hook": sprint(hooked)}
+		var operand, twinOperand interface{}
+		// the hook's rendering of e (not hookable: id -1), as the fmt-side stand-in prints it
+		unsafeCtx, safeCtx := false, false
+		switch shape {
+		case "top":
+			operand = e
+		case "slice":
+			operand = []interface{}{e}
+		case "errs":
+			operand = []error{e}
+		case "map-value":
+			operand = map[string]error{"k": e}
+		case "map-key":
+			operand = map[error]int{e: 1}
+		case "field":
+			operand = struct{ E error }{e}
+		case "ptr":
+			operand = &struct{ E error }{e}
+		case "array":
+			operand = [1]error{e}
+		case "safe":
+			operand, safeCtx = redact.Safe(e), true
+		default:
+			operand, unsafeCtx = redact.Unsafe(e), true
+		}
+		out := runRedact(routeS, false, "a "+d+" z", []interface{}{operand})
+		w.Eval(1)
+		if out.panicked {
+			w.Violate("C17 numeric-error", "panic escaped: "+pvalString(out.pval)+" for "+sprintType(operand)+" under "+d, cs)
+			return
+		}
+		if !hooked || unsafeCtx {
+			// fmt's rendering (hook bypassed or absent): text equality with fmt, everything of the error enveloped
+			twinOperand = operand
+			if unsafeCtx {
+				twinOperand = e
+			}
+			if safeCtx {
+				twinOperand = e
+			}
+			fo := runFmt(false, false, "a "+d+" z", []interface{}{twinOperand})
+			if fo.panicked {
+				return
+			}
+			if got, want := redact.RedactableString(out.out).StripMarkers(), esc(fo.out); got != want {
+				w.Violate("C17 numeric-error", "Sprintf("+q(d)+", "+sprintType(operand)+") strips to "+q(got)+", fmt prints "+q(want)+" (hook "+sprint(hooked)+")", cs)
+			}
+			return
+		}
+		// hook installed: the error is rendered by the hook alone, with the verb of the directive
+		h := "H<-1|" + verb + "|" + wrapUnsafe("d-1") + ">"
+		if safeCtx {
+			h = "H<-1|" + verb + "|d-1>"
+		}
+		if !strings.Contains(canon(out.out), h) {
+			w.Violate("C17 numeric-error", "with the hook installed, Sprintf("+q(d)+", "+sprintType(operand)+") = "+q(out.out)+" does not contain the hook's rendering "+q(h)+" of the error", cs)
+			return
+		}
+		if strings.Contains(out.out, "errno") || strings.Contains(out.out, "ferr") || strings.Contains(out.out, "text:") {
+			w.Violate("C17 numeric-error", "with the hook installed, the error's own text appears in "+q(out.out), cs)
+			return
+		}
+		w.Nontrivial(hashStrs("numerr", sprintType(e), d, shape))
 	})
 }
